@@ -73,12 +73,25 @@ def run(ctx):
                 recv = eb.op(t["args"][0])
                 val = eb.op(t["args"][1])
                 pushes.append((bb, t, recv, val))
-        tpush = [x for x in pushes if show(x[2]).startswith("std::vec::Vec::<T>::with_capacity") and x[3][0] == "agg" and x[3][1] == "tuple"]
-        timed = [x for x in tpush if not all(v[0] == "c" for v in x[3][2])]
+        # the pushed pair may reach the push packed in a helper's return value: expand it through
+        # every merged temporary (projection-aware) and look at each alternative tuple
+        from ..expr import alternatives
+        tuple_sites = []
+        for sbb, sidx, item in b.iter_stmts():
+            if item.get("k") == "assign" and item["rv"]["k"] == "aggregate" and item["rv"]["kind"].get("k") == "tuple" and len(item["rv"]["ops"]) == 2:
+                tuple_sites.append((eb.at(sbb, sidx).rvalue(item["rv"]), item["rv"]["ops"]))
+        timed = []
+        for bb, t, recv, val in pushes:
+            if not show(recv).startswith("std::vec::Vec::<T>::with_capacity"):
+                continue
+            for alt in alternatives(eb, val):
+                if alt[0] == "agg" and alt[1] == "tuple" and len(alt[2]) == 2 and not all(v[0] == "c" for v in alt[2]):
+                    comps = [ops for ex, ops in tuple_sites if canon(ex) == canon(alt)]
+                    timed.append((bb, t, recv, alt, comps[0] if comps else None))
         ctx.anchor("C09-R1", "push of parsed (start, end)", len(timed), 1, b.loc())
         sr = ("arg", "sampling_rate")
         fp = ("arg", "fperiod")
-        for bb, t, recv, val in timed:
+        for bb, t, recv, val, comps in timed:
             okk = True
             srcs = []
             for comp in val[2]:
@@ -95,12 +108,6 @@ def run(ctx):
                 srcs.append(rest[0])
             if okk:
                 # token order: start derives from the first SplitN::next call, end from the second
-                tup = t["args"][1]
-                tl = tup["place"]["local"]
-                comps = None
-                for dbb, didx, ditem in b.defs().get(tl, []):
-                    if didx != "term" and ditem["rv"]["k"] == "aggregate":
-                        comps = ditem["rv"]["ops"]
                 isnext = lambda nm: nm.endswith("SplitN<'a, P> as std::iter::Iterator>::next") or nm.endswith("Iterator>::next") and "Split" in nm
                 o0 = origin_calls(b, comps[0], isnext) if comps else []
                 o1 = origin_calls(b, comps[1], isnext) if comps else []
